@@ -15,6 +15,7 @@
    No proofs here. *)
 From Coq Require Import List ZArith Bool Lia.
 From LJT Require Import gen.GenLimits model.Huff.
+(* note: the source tree is a moving target; gen_Limits.py fails when a guard mirrored here changes *)
 Import ListNotations.
 Local Open Scope Z_scope.
 
@@ -189,21 +190,30 @@ Definition get_sof (prog lossless arith : bool) (h : hdr) : M hdr :=
              (h_jfif h) (h_adobe h) (h_nscans h)).
 
 (* ------------------------------------------------------------------ get_sos *)
-(* "for (ci = 0; ci < num_components && ci < MAX_COMPS_IN_SCAN; ci++)
-      if (cc == compptr->component_id && !cinfo->cur_comp_info[ci]) goto id_found;" *)
-Fixpoint find_comp (cc : Z) (cs : list comp) (cur : list (option Z)) (ci nc : Z) : M (option Z) :=
+(* "for (pi = 0; pi < i; pi++) if (cinfo->cur_comp_info[pi] == compptr) break;"  true = found *)
+Fixpoint in_scan (k : nat) (pi : Z) (cur : list (option Z)) (ci : Z) : M bool :=
+  match k with
+  | O => ret false
+  | S k' =>
+      log pi bound_cur_comp_info ;;;
+      match nthd cur pi None with
+      | Some x => if x =? ci then ret true else in_scan k' (pi + 1) cur ci
+      | None => in_scan k' (pi + 1) cur ci
+      end
+  end.
+
+(* "for (ci = 0, compptr = comp_info; ci < num_components; ci++, compptr++)
+      if (cc == compptr->component_id) { for (pi..) ...; if (pi == i) goto id_found; }" *)
+Fixpoint find_comp (cc : Z) (cs : list comp) (cur : list (option Z)) (i ci nc : Z) : M (option Z) :=
   match cs with
   | [] => ret None
   | c :: t =>
-      if (ci <? nc) && (ci <? L_MAX_COMPS_IN_SCAN) then
+      if ci <? nc then
         log ci nc ;;;                        (* comp_info[ci].component_id *)
         if cc =? c_id c then
-          log ci bound_cur_comp_info ;;;     (* cur_comp_info[ci] *)
-          match nthd cur ci None with
-          | None => ret (Some ci)
-          | Some _ => find_comp cc t cur (ci + 1) nc
-          end
-        else find_comp cc t cur (ci + 1) nc
+          b <- in_scan (Z.to_nat i) 0 cur ci ;;
+          if b then find_comp cc t cur i (ci + 1) nc else ret (Some ci)
+        else find_comp cc t cur i (ci + 1) nc
       else ret None
   end.
 
@@ -227,7 +237,7 @@ Fixpoint sos_comps (k : nat) (i nc : Z) (comps : list comp) (cur : list (option 
   | O => ret (comps, cur)
   | S k' =>
       cc <- get_byte ;; c <- get_byte ;;
-      r <- find_comp cc comps cur 0 nc ;;
+      r <- find_comp cc comps cur i 0 nc ;;
       match r with
       | None => fail E_BAD_COMPONENT_ID
       | Some ci =>
